@@ -212,6 +212,9 @@ class RealSession:
             elif k == "use":
                 d = rep[op["tool"]]
                 ob["tool"] = list(d.get(MARK, []))
+                if op["tool"] == "tifa":
+                    # an analysis leaves its own trace in the tool's data
+                    ob["tool_len"] = len(d["analyses"]) + len(ob["tool"])
             elif k == "mut":
                 d = rep[op["tool"]]
                 d.setdefault(MARK, []).append("m")
@@ -337,6 +340,10 @@ def compare_op(op, real, model):
         for f, dirty in real.get("dirty", {}).items():
             if (model["fields"].get(f) != []) != dirty:
                 d.append("field %s dirty real=%s model=%s" % (f, dirty, model["fields"].get(f)))
+    elif k == "use" and op["tool"] == "tifa":
+        mt = model["tools"].get("tifa")
+        if mt is None or len(mt) != real.get("tool_len"):
+            d.append("tifa tool data real=%r model=%r" % (real.get("tool_len"), mt))
     elif k == "use":
         if real.get("tool") != model["tools"].get(op["tool"]):
             d.append("tool %s real=%r model=%r" % (op["tool"], real.get("tool"), model["tools"].get(op["tool"])))
